@@ -103,7 +103,7 @@ package jet
 //@   callsite (io.ReadCloser).Close count 1
 
 //@ func (*Set).parse
-//@   props C15 C16 C08 C02 C11
+//@   props C15 C16 C08 C02 C11 C10
 //@   requires [set-ok] SetOK(s)
 //@   requires [canonical-name] Canon(name)
 //@   modifies ghost CM, ghost NL
@@ -126,7 +126,7 @@ package jet
 //@   inline
 
 //@ func (*Template).addBlocks
-//@   props C08 C11
+//@   props C08 C11 C10
 //@   requires t != nil
 //@   modifies t.processedBlocks, map t.processedBlocks
 //@   nopanic
